@@ -3,12 +3,14 @@
 
     The abstract layer has one total operation per instruction on a state type.  The concrete operations [c_*]
     below apply the building-block model when the instruction applies to the state ([applicable]) and leave the
-    state unchanged otherwise; the strict interpreter [exec] / [run_prog] stops instead.  On programs that pass
+    state unchanged otherwise (a split that does not apply gives the error state: what follows a split may rely on
+    the state being its result); the strict interpreter [exec] / [run_prog] stops instead.  On programs that pass
     the static check [prog_ok] (evaluated by the harness on every translated program) the two agree
     ([exec_is_sem], [run_prog_is_sem]).
 
     Discharged for the concrete operations: H_T0 (zero-duration integration is the identity), H_pulse0 (a pulse of
-    proportion 0 is the identity; from Proofs/PhiManipTable.pulse14_zero_identity).  Hence [norm_sound],
+    proportion 0 is the identity; from Proofs/PhiManipTable.pulse14_zero_identity), H_admix_diag (directly after
+    phi_1D_to_2D, phi_2D_to_3D_admix in any proportion is phi_2D_to_3D_split_2: [c_admix_diag]).  Hence [norm_sound],
     [nesting_sound], [nesting2_sound], [params_match_names_sound] hold of the concrete spectra without any
     hypothesis on the numerical layer.  NOT discharged (they hold only up to operator-splitting error): the
     equivariance hypotheses E_* of the relabelling theorem. *)
@@ -16,7 +18,7 @@ From Coq Require Import String.
 From Coq Require Import QArith Qreals List Bool Arith ZArith Reals Lra Lia FunctionalExtensionality.
 From Dadi Require Import Base.Num Base.NumR Model.Tridiag Model.Scheme Model.NDSweep Model.Equilibrium Model.PhiManip
                          Model.FromPhi Model.DSL Model.ProgSem Proofs.Drivers Proofs.DSLProofs Proofs.DSLInstance
-                         Proofs.PhiManipDeposit Proofs.PhiManipTable.
+                         Proofs.PhiManipDeposit Proofs.PhiManipND Proofs.PhiManipTable Proofs.PhiManipMisc.
 Import ListNotations.
 Local Open Scope bool_scope.
 Local Open Scope R_scope.
@@ -78,7 +80,7 @@ Section Concrete.
   Definition c_grid (s : St) : St := if applicable IGrid (kindof s) then do_grid pts grid0 s else s.
   Definition c_phi1d (nu th g h be : R) (s : St) : St :=
     if applicable (IPhi1D (Const 0) (Const 0) (Const 0) (Const 0) (Const 0)) (kindof s) then do_phi1d ovf quad nu th g h be s else s.
-  Definition c_split (d parent : nat) (s : St) : St := if applicable (ISplit d parent) (kindof s) then do_split d parent s else s.
+  Definition c_split (d parent : nat) (s : St) : St := if applicable (ISplit d parent) (kindof s) then do_split d parent s else SErr.
   Definition c_admixnew (d : nat) (fs : list R) (s : St) : St :=
     if applicable (IAdmixNew d (dummy fs)) (kindof s) then do_admixnew d fs s else s.
   Definition c_pulse (d : nat) (srcs : list nat) (dst : nat) (fs : list R) (s : St) : St :=
@@ -365,18 +367,71 @@ Section Concrete.
     - apply kind_KErr in Ek. subst s. reflexivity.
   Qed.
 
+  (** H_admix_diag: the density phi_1D_to_2D returns lives on the diagonal; there the ad-mixed frequency f x + (1-f) x is x
+      for every f, and off the diagonal a zero entry deposits zeros wherever it lands *)
+  Lemma deposit_col_zero (zz : list R) adz adz' : deposit_col zz 0 adz = deposit_col zz 0 adz'.
+  Proof.
+    unfold deposit_col, dep_norm. numR.
+    assert (Z : forall d : R, 2 * 0 / d = 0) by (intro; unfold Rdiv; rewrite Rmult_0_r, Rmult_0_l; reflexivity).
+    rewrite !Z, !Rmult_0_r.
+    transitivity (map (fun _ : nat => 0) (seq 0 (length zz))); [|symmetry];
+      (apply map_ext; intro k; repeat match goal with |- context [if ?b then _ else _] => destruct b end; reflexivity).
+  Qed.
+  Lemma unflat2 n idx : unflat [n; n] idx = [(idx / n)%nat; (idx mod n)%nat].
+  Proof. cbn [unflat prodn fold_right]. rewrite Nat.mul_1_r, Nat.div_1_r. reflexivity. Qed.
+  Lemma new_pop_diag (g phi : list R) (f f' : R) :
+    new_pop [length g; length g] [g; g] (coefs_of [f]) g (phi_1D_to_2D g phi) =
+    new_pop [length g; length g] [g; g] (coefs_of [f']) g (phi_1D_to_2D g phi).
+  Proof.
+    unfold new_pop. apply flat_map_ext_in. intros idx Hidx. apply in_seq in Hidx.
+    cbn [prodn fold_right] in Hidx. rewrite Nat.mul_1_r in Hidx.
+    assert (Hn : (0 < length g)%nat) by (destruct (length g); lia).
+    rewrite unflat2.
+    assert (Hi : (idx / length g < length g)%nat) by (apply Nat.div_lt_upper_bound; lia).
+    assert (Hj : (idx mod length g < length g)%nat) by (apply Nat.mod_upper_bound; lia).
+    assert (E : idx = (idx / length g * length g + idx mod length g)%nat) by (rewrite Nat.mul_comm; apply Nat.div_mod; lia).
+    set (i := (idx / length g)%nat) in *. set (j := (idx mod length g)%nat) in *.
+    rewrite E. rewrite (phi_1D_to_2D_entry g phi i j Hi Hj).
+    destruct (Nat.eqb i j && Nat.ltb 0 i && Nat.ltb i (length g - 1)) eqn:Eb.
+    - apply andb_true_iff in Eb. destruct Eb as [Eb _]. apply andb_true_iff in Eb. destruct Eb as [Eb _].
+      apply Nat.eqb_eq in Eb. rewrite <- Eb.
+      f_equal. unfold adfreq, coefs_of, rest_of, lsum. cbn [app fold_left combine map fst snd]. numR. ring.
+    - apply deposit_col_zero.
+  Qed.
+  Lemma c_after_SErr_admix d fs : c_admixnew d fs SErr = SErr.
+  Proof. reflexivity. Qed.
+  Lemma c_after_SErr_split d parent : c_split d parent SErr = SErr.
+  Proof. reflexivity. Qed.
+  Theorem c_admix_diag : forall f s, c_admixnew 2 [f] (c_split 1 0 s) = c_split 2 1 (c_split 1 0 s).
+  Proof.
+    intros f s. unfold c_split at 1 3.
+    destruct (applicable (ISplit 1 0) (kindof s)) eqn:Ha; [|reflexivity].
+    destruct (kindof s) eqn:Ek; try (cbn [applicable] in Ha; discriminate).
+    - apply kind_KPhi in Ek. destruct Ek as [g [phi [-> Hphi]]]. cbn [applicable] in Ha.
+      apply andb_true_iff in Ha. destruct Ha as [Hd _]. apply Nat.eqb_eq in Hd. subst d.
+      cbn [do_split Nat.eqb]. unfold mkphi.
+      destruct (phi_ok g 2 (phi_1D_to_2D g phi)) eqn:H2; [|reflexivity].
+      unfold c_admixnew, c_split. cbn [kind_of]. rewrite H2.
+      cbn [applicable dummy map length Nat.eqb andb orb split_index do_admixnew do_split nth cons_table].
+      unfold run_desc. cbn [pd_args pd_axgrids pd_gdep pd_dest mkp desc_args map eval_arg rejected nth].
+      unfold shape_of. cbn [repeat]. unfold nthF at 1. cbn [nth].
+      replace (@nofZ R NumR 0%Z) with 0 by (numR; reflexivity).
+      rewrite (new_pop_diag g phi f 0). reflexivity.
+    - apply kind_KErr in Ek. subst s. reflexivity.
+  Qed.
+
   (** ** the soundness theorems of Proofs/DSLProofs.v about the CONCRETE semantics: no hypothesis on the numerical layer *)
   Theorem concrete_norm_sound A env : env_ok A env -> forall p s, csem (norm A p) env s = csem p env s.
   Proof. exact (norm_sound St c_grid c_phi1d c_split c_admixnew c_pulse c_integrate c_remove c_reorder c_fromphi c_fromphi_inb c_mscmd
-                           c_integrate_T0 c_pulse_zero A env). Qed.
+                           c_integrate_T0 c_pulse_zero c_admix_diag A env). Qed.
   Theorem concrete_nesting_sound A sg complex simple : nests A sg complex simple = true ->
     forall env, env_ok A env -> forall s, csem complex (env_of sg env) s = csem simple env s.
   Proof. exact (nesting_sound St c_grid c_phi1d c_split c_admixnew c_pulse c_integrate c_remove c_reorder c_fromphi c_fromphi_inb c_mscmd
-                              c_integrate_T0 c_pulse_zero A sg complex simple). Qed.
+                              c_integrate_T0 c_pulse_zero c_admix_diag A sg complex simple). Qed.
   Theorem concrete_nesting2_sound A sgc sgs complex simple : nests2 A sgc sgs complex simple = true ->
     forall env, env_ok A env -> forall s, csem complex (env_of sgc env) s = csem simple (env_of sgs env) s.
   Proof. exact (nesting2_sound St c_grid c_phi1d c_split c_admixnew c_pulse c_integrate c_remove c_reorder c_fromphi c_fromphi_inb c_mscmd
-                               c_integrate_T0 c_pulse_zero A sgc sgs complex simple). Qed.
+                               c_integrate_T0 c_pulse_zero c_admix_diag A sgc sgs complex simple). Qed.
 
   (** ... and about the spectra the strict interpreter returns *)
   Lemma env_of_list_map (sg : list expr) (params : list R) :
